@@ -941,6 +941,28 @@ impl Player {
                 "parent": names::token_of_hash(&b256_of(&b["parentHash"]).unwrap_or_default()),
                 "ts": u64_of(&b["timestamp"]).unwrap_or(0), "txs": ids}));
         }
+        // ---- block tags: latest / safe / finalized = the current height, earliest = 0, pending = the next height,
+        //      0x-hex = decimal
+        if height != u64::MAX {
+            let by = |me: &mut Self, tag: String| me.get("eth_getBlockByNumber", json!([tag, false])).ok().cloned().map(|b| strip_mine_ts(&b)).unwrap_or(Value::Null);
+            let cur = by(self, format!("{}", height));
+            for tag in ["latest", "safe", "finalized"] {
+                let b = by(self, tag.to_string());
+                flag!("tags", b == cur, "eth_getBlockByNumber({}) is not block {}", tag, height);
+            }
+            let b_hex = by(self, format!("{:#x}", height));
+            flag!("tags", b_hex == cur, "the 0x form of height {} names another block than the decimal form", height);
+            let b_e = by(self, "earliest".to_string());
+            let b_0 = by(self, "0".to_string());
+            flag!("tags", b_e == b_0, "earliest is not block 0");
+            let next = if cur.is_null() { 0 } else { height + 1 };
+            let b_p = by(self, "pending".to_string());
+            let b_n = by(self, format!("{}", next));
+            flag!("tags", b_p == b_n, "pending is not the next height {}", next);
+            let c_l = self.get("eth_getBlockTransactionCountByNumber", json!(["latest"])).ok().cloned().unwrap_or(Value::Null);
+            let c_d = self.get("eth_getBlockTransactionCountByNumber", json!([format!("{}", height)])).ok().cloned().unwrap_or(Value::Null);
+            flag!("tags", c_l == c_d, "transaction count of latest differs from the count of block {}", height);
+        }
         // ---- hash -> number
         let mut byhash = Vec::new();
         for tok in self.u_hash.clone() {
